@@ -217,7 +217,7 @@ def run(out, replay_path=None):
     from . import check_writer
     from .checks import Outcome
     sub = Outcome('C05', out.tier, out.seed)
-    check_writer.run(sub)
+    check_writer.run(sub, with_sinks=False)
     sub6 = Outcome('C06', out.tier, out.seed)
     from .check_writer import _stats_sum
     tot, st, fns, stubs_, steps, _, backend = _stats_sum(stats)
